@@ -388,6 +388,24 @@ def py_pool():
         inner = HTMLDependency("inner", "1", script=[{"src": "i.js"}, {"src": "j.js", "defer": ""}])
         return TagList(div(HTMLDependency("outer", "1", head=TagList(div(inner, "x")))), "t", 3, 2.5)
     out.append(("dependency whose head holds a tag holding a dependency", nested_head))
+
+    def subclass_fields():
+        from htmltools._core import TagAttrDict
+
+        class Card(Tag):
+            """a user's Tag subclass with an attribute map and a child list of its own (Tag.__copy__ / tagify() build the
+            copy with self.__class__ and shallow-copy every instance field)"""
+
+            def __init__(self, *args, **kwargs):
+                super().__init__("div", *args, **kwargs)
+                self.header_attrs = TagAttrDict({"class": "hd", "data-x": 1})
+                self.footer = TagList("f1", HTML("<i>f2</i>"))
+
+        inner = Card("in", id="i")
+        t = div("a", inner, Card(span("s"), class_="c"))
+        t.note_attrs = TagAttrDict(title="n")
+        return t
+    out.append(("Tag subclass (and a plain Tag) carrying an attribute map and a child list in further instance fields", subclass_fields))
     return out
 
 
